@@ -100,6 +100,7 @@ class Runner:
         self.close_task = None
         self.close_t0 = None
         self.close_t1 = None
+        self.stalled = None  # reader that holds a partial frame (no further input is fed to it)
         self.gates = {}  # addr -> asyncio.Event the protocol-level new-device callback waits for (harness-only G / R events)
         self.gate_waiting = set()  # addrs whose callback is blocked right now
         self.fed = []  # (event index, addr, kind) of every complete frame for us handed to a reading producer
@@ -186,12 +187,22 @@ class Runner:
         self.nev += 1
         if k == "G":  # harness only: the next new-device callback for this address blocks until R
             a = int(parts[1])
-            if a not in self.gates and ADDR_NAME.get(a) not in self.protocol.data:
+            if a not in self.gates and a not in self.devices:
                 self.gates[a] = asyncio.Event()
             return self.segment()
         if k == "R":  # harness only: release every gate
             for g in self.gates.values():
                 g.set()
+            self.gates.clear()
+            self.settle()
+            return self.segment()
+        if k == "S":  # the peer sends the first k bytes of a frame, then stalls
+            if self.conn.readers and self.producer_reading() and not self.conn.readers[-1].at_eof():
+                r = self.conn.readers[-1]
+                data = connfake.password_frame()[:int(parts[1])]
+                if data:
+                    r.feed_data(data)
+                self.stalled = r
             self.settle()
             return self.segment()
         if k == "C":
@@ -359,7 +370,7 @@ class Runner:
             zt = self.t() - self.close_t0
         q = self.write_queue().qsize()
         st = (f"c={int(self.protocol.connected.is_set())},w={w},wa={wa},p={c['p']},k={c['k']},l={c['l']},r={c['r']},"
-              f"s={c['s']},d={c['d']},b={c['b']},q={q},t={self.t()},z={z},zt={zt},tie=0")
+              f"s={c['s']},rq={c['rq']},d={c['d']},b={c['b']},q={q},rs={self.read_queue().qsize()},t={self.t()},z={z},zt={zt},tie=0")
         o = ";".join("/".join(str(x) for x in e) for e in outs)
         return (o if o else "-") + "#" + st
 
